@@ -15,6 +15,7 @@ mod c10;
 mod c03;
 mod c13;
 mod c12;
+mod c15;
 
 use common::Tier;
 
@@ -40,6 +41,7 @@ fn main() {
         "C03" => c03::run(tier),
         "C13" => c13::run(tier),
         "C12" => c12::run(tier),
+        "C15" => c15::run(tier),
         "bind" => { let r = samples::bind_or_die(); println!("rsig ok {} rejected {} ; rdl validations {} exec-error {} skipped {:?}", r.rsig_accepted, r.rsig_rejected, r.rdl_validations, r.rdl_exec_error_validations, r.rdl_skipped); }
         other => {
             eprintln!("unknown property {other}");
